@@ -21,7 +21,8 @@ from mc.explore import Property, Result, digest, jdump, violation
 
 REP = [("a", 0x61), ("b", 0x62), ("A-cy", 0x410), ("alpha", 0x3B1), ("alef-ar", 0x627),
        ("beh-ar", 0x628), ("alef-hb", 0x5D0), ("ka-deva", 0x915), ("ka-kana", 0x30AB),
-       ("one", 0x31), ("period", 0x2E), ("acutecomb", 0x301), ("x.alt", None)]
+       ("one", 0x31), ("period", 0x2E), ("acutecomb", 0x308), ("x.alt", None)]
+# acutecomb is encoded at U+0308 on purpose: its script extension spans Latn, Cyrl, Grek AND Hebr (an RTL script)
 UNI = dict(REP)
 
 G1, G2 = "public.kern1.A", "public.kern2.B"
@@ -39,7 +40,7 @@ GROUPS = [
     {G1: ["A-cy", "alpha"], G2: ["A-cy", "b"]},
 ]
 SIDE1 = ["a", "alef-ar", "one", "period", "acutecomb", "ka-deva", "@1"]
-SIDE2 = ["b", "beh-ar", "one", "period", "acutecomb", "A-cy", "ka-deva", "@2"]
+SIDE2 = ["b", "beh-ar", "alef-hb", "one", "period", "acutecomb", "A-cy", "ka-deva", "@2"]
 VALUES = [-50, 35, 0, 6.5, -7.5]
 
 ENVS = ["categories", "ls-dflt", "ls-multi", "gsub-alt", "gsub-neutral-alt", "skip-b", "missing-in-group",
@@ -120,7 +121,7 @@ def make_spec(gi, env, entries, ltr_only=False):
     return spec
 
 
-def compile_font(spec, env, module="ufoLib2", writer2=False):
+def compile_font(spec, env, module="ufoLib2", writer2=False, prev_spec=None):
     import ufo2ft
     from ufo2ft.featureWriters import (CursFeatureWriter, GdefFeatureWriter, KernFeatureWriter,
                                        MarkFeatureWriter)
@@ -133,7 +134,7 @@ def compile_font(spec, env, module="ufoLib2", writer2=False):
     if "no-ignoremarks" in env:
         kw["ignoreMarks"] = False
     opts = {}
-    if kw or writer2:
+    if kw or writer2 or prev_spec is not None:
         if writer2:
             from ufo2ft.featureWriters.kernFeatureWriter2 import KernFeatureWriter as KW2
             kwcls = KW2
@@ -142,6 +143,11 @@ def compile_font(spec, env, module="ufoLib2", writer2=False):
         opts["featureWriters"] = [kwcls(**kw), MarkFeatureWriter, GdefFeatureWriter, CursFeatureWriter]
     if "skip-b" in env:
         opts["skipExportGlyphs"] = ["b"]
+    if prev_spec is not None:
+        # call history on the writer objects: the SAME instances first compile another font
+        opts["featureWriters"] = [w() if isinstance(w, type) else w for w in opts["featureWriters"]]
+        ufo2ft.compileTTF(B.build_font(prev_spec, module), useProductionNames=False,
+                          featureWriters=opts["featureWriters"])
     tt = ufo2ft.compileTTF(font, useProductionNames=False, **opts)
     return O.reload(tt)
 
@@ -176,6 +182,21 @@ def evaluate(tt, spec, env, counters):
         gdef_marks = "source"
     else:
         gdef_marks = "inferred" if any(c == 3 for c in lay.classes.values()) else "none"
+    supported = set()
+    for g in exported:
+        ext = props[g][0]
+        if len(ext) == 1:
+            supported |= ext
+    if "gsub-alt" in env and "a" in exported:
+        supported |= props["a"][0]
+    for tag in tags:
+        sc = None
+        try:
+            sc = unicodedata.ot_tag_to_script(tag)
+        except Exception:
+            pass
+        if sc and "ls-multi" in env:
+            supported.add(sc)
     for g1 in exported:
         for g2 in exported:
             raw, level = K.lookup(kerning, spec["groups"], g1, g2, expset)
@@ -190,6 +211,12 @@ def evaluate(tt, spec, env, counters):
                     continue  # cannot be adjacent in a run of one script
             else:
                 scripts = s1 or s2
+            # a run has script S only if the text contains strong characters of S, i.e. the font must
+            # support S: some exported glyph belongs to S alone, or S is declared by a languagesystem
+            if scripts:
+                scripts = scripts & supported
+                if not scripts:
+                    continue
             runs = []  # (description, tag, rtl)
             if scripts:
                 for sc in sorted(scripts):
@@ -282,6 +309,10 @@ class C05(Property):
             out.append([{"G": gi, "env": ["categories", "ls-multi"], "expand": "once"}])
             out.append([{"G": gi, "env": ["categories", "gsub-alt"], "expand": "once"}])
         for gi in b["groups"]:
+            if gi in (0, 4, 7):
+                for env in ([], ["categories"]):
+                    out.append([{"G": gi, "env": env, "expand": "once", "prev": "latn-only"}])
+        for gi in b["groups"]:
             if gi in (3, 6):
                 continue  # group configurations built around RTL glyphs
             out.append([{"G": gi, "env": [], "expand": True if gi in b["w2_deep"] else "once", "w2": True}])
@@ -340,7 +371,8 @@ class C05(Property):
                     yield [s1, s2, v]
 
     def canon(self, h, b):
-        return jdump([h[0]["G"], sorted(h[0]["env"]), bool(h[0].get("w2")), sorted(h[1:], key=jdump)])
+        return jdump([h[0]["G"], sorted(h[0]["env"]), bool(h[0].get("w2")), bool(h[0].get("prev")),
+                      sorted(h[1:], key=jdump)])
 
     def run(self, h, b):
         head, ent = h[0], h[1:]
@@ -349,8 +381,18 @@ class C05(Property):
         spec = make_spec(head["G"], env, ent, ltr_only=w2)
         counters = {"pair_evaluations": 0, "nonzero_expected": 0, "exception_level_hits": 0,
                     "pairs_seen_by_two_lookups": 0, "rtl_placement_checks": 0}
-        tt = compile_font(spec, env)
+        prev = None
+        if head.get("prev"):
+            # a Latin-only font that shares the multi-script mark U+0301 with the full repertoire
+            prev = make_spec(0, [], [["a", "b", -10], ["a", "acutecomb", -5]])
+            prev["glyphs"] = {n: g for n, g in prev["glyphs"].items() if n in (".notdef", "a", "b", "period", "acutecomb")}
+            prev["order"] = list(prev["glyphs"])
+        tt = compile_font(spec, env, prev_spec=prev)
         viols, table = evaluate(tt, spec, env, counters)
+        if prev is not None:
+            counters["writer_reuse_states"] = 1
+            for v in viols:
+                v["features"]["reused_writers"] = True
         if w2:
             # the alternative writer on a single-direction font: same oracle, and same value table
             tt2 = compile_font(spec, env, writer2=True)
